@@ -65,10 +65,10 @@ func (s *speller) ws(required bool) {
 	}
 }
 
-func (s *speller) tok(t string)       { s.b.WriteString(t) }
-func (s *speller) spaced(t string)    { s.ws(false); s.b.WriteString(t); s.ws(false) }
-func (s *speller) kw(word string)     { s.b.WriteString(s.kwCase(word)) }
-func (s *speller) kwSep(word string)  { s.ws(true); s.kw(word); s.ws(true) }
+func (s *speller) tok(t string)      { s.b.WriteString(t) }
+func (s *speller) spaced(t string)   { s.ws(false); s.b.WriteString(t); s.ws(false) }
+func (s *speller) kw(word string)    { s.b.WriteString(s.kwCase(word)) }
+func (s *speller) kwSep(word string) { s.ws(true); s.kw(word); s.ws(true) }
 
 // kwCase varies the case of a case-insensitive keyword.
 func (s *speller) kwCase(w string) string {
